@@ -280,6 +280,12 @@ func (ps *PartSet) AddPart(part *Part) (bool, error) {
 		return false, nil
 	}
 
+	// The proof must be for this position in a tree of this part set's size:
+	// Verify alone does not bind the proof's index and total to ours.
+	if part.Proof.Index != int64(part.Index) || part.Proof.Total != int64(ps.total) {
+		return false, ErrPartSetInvalidProof
+	}
+
 	// Check hash proof
 	if part.Proof.Verify(ps.Hash(), part.Bytes) != nil {
 		return false, ErrPartSetInvalidProof
